@@ -96,22 +96,24 @@ var (
 	sPrioFloor int32
 
 	// strategy parameters
-	sP         uint64 // random: switch with probability 1/sP
-	sQ         uint32 // rr quantum
-	sPrio      [maxTasks]int32
-	sCP        [4]uint64 // PCT change points (steps)
-	sNCP       int
-	sStallT    int
-	sStallAt   uint32
-	sStallK    int32
-	sStallOn   bool
-	sStallHit  uint64
-	sStallMax  uint64
-	sStallGap  uint32
-	sStallHot  bool
-	sStallBase [maxTasks]int32
-	siteHot    []bool
-	treeHot    int // number of yield sites in front of statements that touch shared state (0 on the pinned tree, apart from a few false positives)
+	sP                                     uint64 // random: switch with probability 1/sP
+	sQ                                     uint32 // rr quantum
+	sPrio                                  [maxTasks]int32
+	sCP                                    [4]uint64 // PCT change points (steps)
+	sNCP                                   int
+	sStallT                                int
+	sStallAt                               uint32
+	sStallK                                int32
+	sStallOn                               bool
+	sStallHit                              uint64
+	sStallMax                              uint64
+	sStallGap                              uint32
+	sStallHot                              bool
+	sClkRate, sClkRng, sClkLeft, sClkJumps uint64
+	sClkStart                              int64
+	sStallBase                             [maxTasks]int32
+	siteHot                                []bool
+	treeHot                                int // number of yield sites in front of statements that touch shared state (0 on the pinned tree, apart from a few false positives)
 
 	// replay of an explicit switch list (per task queues)
 	sRepl    [maxTasks][]SwRec
@@ -176,6 +178,7 @@ func yieldHook(site int) {
 			runtime.Gosched() // a rewritten Lock loop outside a run: let the holder (a goroutine of the tree under test) proceed
 			return
 		}
+		hook.SimNow += 1000
 		if sCounting {
 			sCountN++
 			sRefOpHash = (sRefOpHash ^ uint64(site+1)) * 0x100000001b3
@@ -274,9 +277,44 @@ func blockedYield(me int, mustSwitch bool) {
 	}
 }
 
+// The simulated clock (hook.SimNow) creeps by a microsecond per yield and, in runs that ask for it, jumps forward
+// by anything between a millisecond and a month at points chosen by a generator of its own (a pure function of the
+// run seed and the number of yields so far).  It never goes back: the tree's time.Since would not see that either.
+var clockJumps = [...]int64{1e6, 1e6, 50e6, 50e6, 1e9, 1e9, 10e9, 61e9, 61e9, 600e9, 3600e9, 25 * 3600e9, 31 * 24 * 3600e9}
+
+const (
+	simEpoch   = int64(1767225600e9)            // 2026-01-01T00:00:00Z
+	simHorizon = int64(150 * 365 * 24 * 3600e9) // 150 years
+)
+
+//go:norace
+func clkRnd() uint64 {
+	sClkRng += 0x9e3779b97f4a7c15
+	z := sClkRng
+	z = (z ^ (z >> 30)) * 0xbf58476d1ce4e5b9
+	z = (z ^ (z >> 27)) * 0x94d049bb133111eb
+	return z ^ (z >> 31)
+}
+
+//go:norace
+func clockTick() {
+	hook.SimNow += 1000
+	if sClkRate > 0 {
+		sClkLeft--
+		if sClkLeft == 0 {
+			if hook.SimNow < simEpoch+simHorizon { // int64 nanoseconds end in 2262: no jumps beyond 2176, the clock then only creeps
+				hook.SimNow += clockJumps[clkRnd()%uint64(len(clockJumps))]
+				sClkJumps++
+			}
+			sClkLeft = 1 + clkRnd()%(2*sClkRate)
+		}
+	}
+}
+
 //go:norace
 func step(me int, site int) {
 	sStep++
+	clockTick()
 	sLocalY[me]++
 	sYInOp[me]++
 	mixHash(uint64(me), uint64(int64(site)))
@@ -687,6 +725,11 @@ func schedReset(n int, c *SchedConfig) {
 	sDeadlock = false
 	sGCRate = c.GCRate
 	sGCFired = 0
+	sClkRate, sClkRng, sClkJumps = uint64(c.ClockRate), c.Seed^0xC10C, 0
+	sClkStart = hook.SimNow
+	if sClkRate > 0 {
+		sClkLeft = 1 + clkRnd()%(2*sClkRate)
+	}
 	sDelivered = 0
 	sLockWaits = 0
 	sForeign = 0
